@@ -337,4 +337,147 @@ theorem run_event (e : Kevent) (rest : List Kevent) (hw : Words4 (e :: rest)) :
       render_event, render_event_frames, ht3, ht2, ht1, mk, udataWords]
 
 end perf
+/-! ### mach.py: `handle_mach_vmfault` -/
+
+section mach
+variable (env : Env) (nested : NestedFn) (t : Tabs)
+
+theorem lookup_vmfault (events : List Kevent) : runHandler Expected.mach env nested "MACH_vmfault" t events =
+    runBody Expected.mach env nested "MACH_vmfault" Expected.handleMachVmfault t events := rfl
+
+section attrs
+variable (l : List Kevent) (a b c d f g : Val)
+theorem attr_vm_addr : objAttr Expected.mach "MachVmfault" l [a, b, c, d, f, g] "addr" = .ok a := rfl
+theorem attr_vm_isKernel : objAttr Expected.mach "MachVmfault" l [a, b, c, d, f, g] "is_kernel" = .ok b := rfl
+theorem attr_vm_result : objAttr Expected.mach "MachVmfault" l [a, b, c, d, f, g] "result" = .ok c := rfl
+theorem attr_vm_faultType : objAttr Expected.mach "MachVmfault" l [a, b, c, d, f, g] "fault_type" = .ok d := rfl
+theorem attr_vm_pid : objAttr Expected.mach "MachVmfault" l [a, b, c, d, f, g] "pid" = .ok f := rfl
+theorem attr_vm_callerProt : objAttr Expected.mach "MachVmfault" l [a, b, c, d, f, g] "caller_prot" = .ok g := rfl
+end attrs
+
+/-- `MachVmfault.__str__` up to the result -/
+def vmHead (addr k r : Nat) : String :=
+  s!"MachVmfault, addr: {pyHex addr}, is_kernel: {if k = 0 then "False" else "True"}, result: {r}"
+
+theorem fmt_bool (k : Nat) : fmtVal (.bool (k != 0)) = .ok (if k = 0 then "False" else "True") := by
+  by_cases h : k = 0
+  · simp [h, fmtVal]
+  · have hb : (k != 0) = true := by simpa using h
+    simp [h, hb, fmtVal]
+
+theorem render_vm_base (l : List Kevent) (addr k r : Nat) (ft pid prot : Val) :
+    renderPieces Expected.mach "MachVmfault" l [.int addr, .bool (k != 0), .int r, ft, pid, prot]
+      Expected.clsMachVmfault.str.base = .ok (vmHead addr k r) := by
+  have hb := fmt_bool k
+  unfold vmHead
+  generalize (if k = 0 then "False" else "True") = ks at hb ⊢
+  simp only [Expected.clsMachVmfault, renderPieces, renderPiece, attr_vm_addr, attr_vm_isKernel, attr_vm_result, hb]
+  simp [fmtVal, String.append_assoc, toString_str]
+
+theorem render_vm_nonzero (l : List Kevent) (addr k r : Nat) (ft pid prot : Val) (hr : r ≠ 0) :
+    renderObj Expected.mach "MachVmfault" l [.int addr, .bool (k != 0), .int r, ft, pid, prot] = .ok (vmHead addr k r) := by
+  have hc : findClass Expected.mach "MachVmfault" = some Expected.clsMachVmfault := rfl
+  simp only [renderObj, hc, render_vm_base]
+  have hb : (r == 0) = false := by simpa using hr
+  simp [Expected.clsMachVmfault, execS, evalSCond, attr_vm_result, hb]
+
+theorem render_vm_plain (l : List Kevent) (addr k : Nat) (c ft : String) (pid prot : Val)
+    (hp : pid = .none ∨ prot = .none) :
+    renderObj Expected.mach "MachVmfault" l [.int addr, .bool (k != 0), .int 0, .member c ft, pid, prot] =
+      .ok (vmHead addr k 0 ++ s!", type: {ft}") := by
+  have hc : findClass Expected.mach "MachVmfault" = some Expected.clsMachVmfault := rfl
+  simp only [renderObj, hc, render_vm_base]
+  rcases hp with hp | hp <;> subst hp
+  · simp [Expected.clsMachVmfault, execS, evalSCond, attr_vm_result, attr_vm_faultType, attr_vm_pid, attr_vm_callerProt,
+      renderPieces, renderPiece, toString_str, String.append_assoc]
+  · cases pid <;>
+    simp [Expected.clsMachVmfault, execS, evalSCond, attr_vm_result, attr_vm_faultType, attr_vm_pid, attr_vm_callerProt,
+      renderPieces, renderPiece, toString_str, String.append_assoc]
+
+theorem render_vm_full (l : List Kevent) (addr k : Nat) (c c' ft : String) (pid : Nat) (prot : List String) :
+    renderObj Expected.mach "MachVmfault" l [.int addr, .bool (k != 0), .int 0, .member c ft, .int pid, .members c' prot] =
+      .ok (vmHead addr k 0 ++ s!", type: {ft}, vm_prot: {" | ".intercalate prot}, pid: {pid}") := by
+  have hc : findClass Expected.mach "MachVmfault" = some Expected.clsMachVmfault := rfl
+  simp only [renderObj, hc, render_vm_base]
+  simp [Expected.clsMachVmfault, execS, evalSCond, attr_vm_result, attr_vm_faultType, attr_vm_pid, attr_vm_callerProt,
+    renderPieces, renderPiece, fmtVal, toString_str, String.append_assoc]
+
+theorem extra_vm (l : List Kevent) (a b : Val) (r : Nat) (ft pid prot : Val) :
+    extraOf Expected.mach "MachVmfault" l [a, b, .int r, ft, pid, prot] =
+      match asOptName ft, asOptNat pid, asOptNames prot with
+      | some x, some y, some z => .ok (.vmfault r x y z)
+      | _, _, _ => .error .unmodelled := by
+  simp [extraOf, attr_vm_result, attr_vm_faultType, attr_vm_pid, attr_vm_callerProt]
+  rfl
+
+theorem head_eq (addr k r : Nat) :
+    s!"MachVmfault, addr: {pyHex addr}, is_kernel: {if k = 0 then "False" else "True"}, result: {r}" = vmHead addr k r := rfl
+
+theorem mkObj_vm (l : List Kevent) (a b c d f g : Val) :
+    mkObj Expected.mach "MachVmfault" l [a, b, c, d, f, g] = .ok (.obj "MachVmfault" l [a, b, c, d, f, g]) := rfl
+
+/-- **`handle_mach_vmfault`** -/
+theorem run_vmfault (e : Kevent) (rest : List Kevent) (hw : Words4 (e :: rest)) :
+    runHandler Expected.mach env nested "MACH_vmfault" t (e :: rest) = hMachVmfault nested env t (e :: rest) := by
+  obtain ⟨a0, a1, a2, a3, hv⟩ := len4 _ (hw e (by simp))
+  obtain ⟨l, hl⟩ : ∃ l, (e :: rest).getLast? = some l := ⟨_, List.getLast?_eq_some_getLast (by simp)⟩
+  have hlm : l ∈ e :: rest := List.mem_of_getLast? hl
+  obtain ⟨b0, b1, b2, b3, hlv⟩ := len4 _ (hw l hlm)
+  rw [lookup_vmfault, runBody]
+  unfold hMachVmfault vmfaultCore
+  simp only [firstOf, lastOf, List.head?_cons, Option.getD_some, hl, head_eq]
+  have harg1 : arg e 1 = a1 := by simp [arg, hv]
+  have harg2 : arg e 2 = a2 := by simp [arg, hv]
+  have hl2 : arg l 2 = b2 := by simp [arg, hlv]
+  have hl3 : arg l 3 = b3 := by simp [arg, hlv]
+  simp only [harg1, harg2, hl2, hl3]
+  have ereal : ∀ st, eval Expected.mach env (e :: rest) st Expected.realEventsE = .ok (.kevents (realEvents (e :: rest))) := by
+    intro st; simp [Expected.realEventsE, eval, realEvents]
+  by_cases hres : b2 = 0
+  · subst hres
+    cases hft : enumNameOfValue env "DbgVmFaultType" b3 with
+    | none =>
+      simp [Expected.handleMachVmfault, exec, evalCond, eval, Expected.lastWord, Expected.word, Expected.first, hl,
+        attrOf_kevent, keventAttr, hv, hlv, truthy, Locals.set, hft, finish, tabs_same_self]
+      rfl
+    | some ft =>
+      cases hre : realEvents (e :: rest) with
+      | nil =>
+        simp [Expected.handleMachVmfault, Expected.vmfaultReal, exec, evalCond, eval, Expected.lastWord, Expected.word,
+          Expected.first, hl, attrOf_kevent, keventAttr, hv, hlv, truthy, Locals.set, hft, ereal, hre, evalArgs, mkObj_vm, finish, extra_vm, asOptName, asOptNat, asOptNames,
+          render_vm_plain, mk, Except.map] <;> rfl
+      | cons r rs =>
+        cases hn : nested t (r :: rs) with
+        | error err =>
+          simp [Expected.handleMachVmfault, Expected.vmfaultReal, exec, evalCond, eval, Expected.lastWord, Expected.word,
+            Expected.first, hl, attrOf_kevent, keventAttr, hv, hlv, truthy, Locals.set, hft, ereal, hre, hn, finish,
+            tabs_same_self, Except.map]
+        | ok res =>
+          obtain ⟨o, t'⟩ := res
+          cases o with
+          | none =>
+            simp [Expected.handleMachVmfault, Expected.vmfaultReal, exec, evalCond, eval, Expected.lastWord, Expected.word,
+              Expected.first, hl, attrOf_kevent, keventAttr, hv, hlv, truthy, Locals.set, hft, ereal, hre, hn, evalArgs,
+              mkObj_vm, finish, extra_vm, asOptName, asOptNat,
+              asOptNames, render_vm_plain, mk, Except.map] <;> rfl
+          | some out =>
+            cases hpp : pidProtOf out with
+            | error err =>
+              simp [Expected.handleMachVmfault, Expected.vmfaultReal, exec, evalCond, eval, Expected.lastWord,
+                Expected.word, Expected.first, hl, attrOf_kevent, attrOf_trace, traceAttr, keventAttr, hv, hlv, truthy,
+                Locals.set, hft, ereal, hre, hn, hpp, finish, Except.map] <;> (cases t'.same t <;> rfl)
+            | ok pp =>
+              obtain ⟨pid, prot⟩ := pp
+              cases pid <;> cases prot <;>
+              simp [Expected.handleMachVmfault, Expected.vmfaultReal, exec, evalCond, eval, Expected.lastWord,
+                Expected.word, Expected.first, hl, attrOf_kevent, attrOf_trace, traceAttr, keventAttr, hv, hlv, truthy,
+                Locals.set, hft, ereal, hre, hn, hpp, optNat, optMembers, evalArgs, mkObj_vm, finish, extra_vm, asOptName, asOptNat, asOptNames, render_vm_plain,
+                render_vm_full, mk, Except.map] <;> rfl
+  · have hb : (b2 != 0) = true := by simpa using hres
+    simp [Expected.handleMachVmfault, exec, evalCond, eval, Expected.lastWord, Expected.word, Expected.first, hl,
+      attrOf_kevent, keventAttr, hv, hlv, truthy, Locals.set, hb, hres, evalArgs, mkObj_vm, finish, extra_vm, asOptName, asOptNat, asOptNames, render_vm_nonzero, mk,
+      Except.map] <;> rfl
+
+end mach
+
 end KdVerif.PyIRCo
